@@ -26,7 +26,9 @@ CHECKS = {
         "differentiator over the solver terms), and that VolumeModel's eta/zeta under every mapping equal those of the plain "
         "conductivity model (all anisotropy cases, with/without eps_r, mu_r). Validation: Model construction and every property "
         "setter are explored path by path on symbolic IEEE-754 doubles (exact fpDiv for Resistivity): accepted <=> conductivity / "
-        "mu_r / eps_r positive and finite.",
+        "mu_r / eps_r positive and finite. The property list that "
+        "estimate_gridding_opts hands to the automatic gridding is the mapped minimum conductivity of the source cell and the "
+        "boundary faces for every ordering of symbolic cell values.",
    note=NOTE_COMMON+" The transcendental functions are environment stubs constrained only by the listed axioms; floating-point accuracy over twelve decades and the IEEE behaviour of the four log maps are outside.",
    technique="symbolic execution on z3 Real terms with axiomatised uninterpreted functions (UF+NRA validity) and Float64 path exploration for input validation",
    ref="DESIGN.md §6 C14"),
